@@ -24,6 +24,9 @@ import (
 
 func TestMain(m *testing.M) { rec.Main(m, "C15") }
 
+// ruleMore describes what was added to the exploration in the build phase.
+const ruleMore = "; grammar, definitions and levels are derived four times back to back and twice more with token automaton and LALR(1) table (12 more times when the derivation ends in diagnostics), then the generator runs twice in process and the binary twice"
+
 const rule = "specifications with many definitions (literals incl. case-only variants, keyword-like string tokens, overlapping patterns so that terminals own several accepting states), and with several simultaneous diagnostics " +
 	"(undefined tokens, tokens defined twice, duplicate values, unknown predefined names, several independent token conflicts, several LALR conflicts); oracle: 5 in-process Parse+Generate repetitions (each ranges over Go maps with a fresh iteration seed) " +
 	"and 2 runs of the binary in fresh processes into empty directories give byte-identical files, the same exit status and the same diagnostics in the same order (ANSI sequences and emoji removed); " +
@@ -354,7 +357,7 @@ func genSpec(t *rapid.T) string {
 }
 
 func TestRepeatedRunsAgree(t *testing.T) {
-	rec.Rule(rule)
+	rec.Rule(rule + ruleMore)
 	hasBin := false
 	if _, err := os.Stat(os.Getenv("VERIF_EMERGE_BIN")); err == nil {
 		hasBin = true
@@ -389,7 +392,7 @@ func TestRepeatedRunsAgree(t *testing.T) {
 
 func TestFixedSpecs(t *testing.T) {
 	rec.Begin(t)
-	rec.Rule(rule)
+	rec.Rule(rule + ruleMore)
 	if rec.Shard() != 0 {
 		t.Skip("seed independent: shard 0 only")
 	}
